@@ -194,6 +194,18 @@ def run_case(case):
             exc, proj, _ = F.safe_load(p2["Main"])
             obs["loaded"] = classify(proj, info, exc)
             shutil.rmtree(d2, ignore_errors=True)
+            if how == "raise":
+                # the SAME process retries the failed save of the SAME state (what the periodic schedule does)
+                try:
+                    pers.save_sensors()
+                    st = "done"
+                except Exception as exc:  # noqa
+                    st = "raised:" + F.qualname(type(exc))
+                d3 = d + "_copy"
+                shutil.copytree(d, d3)
+                exc3, proj3, _ = F.safe_load(F.paths_for(d3, fmt)["Main"])
+                obs["retry"] = (st, pers.need_save, classify(proj3, info, exc3))
+                shutil.rmtree(d3, ignore_errors=True)
             obs["again"] = again(None, p, fmt, same_process_gw=gw)
         return obs
     finally:
@@ -217,6 +229,12 @@ def monitor(case, obs):
         bad.append((f"{case['kind']}/next-save", f"{case['fmt']} prior={case['cfg']} {case['kind']} at call {case['k']}: next save "
                     f"status={st} need_save={ns} round_trip={rt}"))
     if case["kind"] == "fault":
+        if "retry" in obs:
+            st3, ns3, loaded3 = obs["retry"]
+            if st3 != "done" or ns3 or loaded3 != canon("new", case["info"]):
+                bad.append(("fault/retry-of-the-same-state",
+                            f"{case['fmt']} prior={case['cfg']} OSError at call {case['k']} ({case.get('op')}): the retried save "
+                            f"of the same state: status={st3} need_save={ns3}, start-up then loads {loaded3}"))
         if obs["how"] == "raise" and obs["exc"] != "OSError":
             bad.append(("fault/other-exception", f"injected OSError surfaced as {obs['exc']}"))
         if obs["how"] == "raise" and not obs["need_save"]:
